@@ -44,3 +44,8 @@ Definition matrix (s : server_id) (c : client_id) : bool :=
 (** the same, for a client configured with the other CA (every server still trusts CA 1 for clients) *)
 Definition matrix_trust (s : server_id) (c : client_id) (client_trusts_other : bool) : bool :=
   handshake_ok (gen_ca 1) (if client_trusts_other then gen_ca 11 else gen_ca 1) (server_chain_of s) (client_chain_of c).
+
+(** a server whose --cert file is a bundle (its leaf followed by the CA that issued it) of the other
+    set, started with the trusted CA for clients; the client trusts the other CA *)
+Definition matrix_bundle (c : client_id) : bool :=
+  handshake_ok (gen_ca 1) (gen_ca 11) [gen_server 11 12; gen_ca 11] (client_chain_of c).
